@@ -117,6 +117,37 @@ def check(mods, src, cfg_name, mk_printer, globals_flag, printer=None):
     return probs
 
 
+def name_generator_obligation(run, obfmod, lexmod, tier):
+    """bounded prefix of the infinite generator: names are distinct, identifiers, outside the skip set, shortest first"""
+    import itertools as it
+    kw = set(lexmod.Lexer.keywords_dict.keys())
+    n = 20000 if tier == 'quick' else 200000
+    g = obfmod.NameGenerator(skip=kw)
+    seen = set()
+    last = 0
+    why = None
+    for name in it.islice(g, n):
+        if name in seen:
+            why = 'name %r generated twice' % name
+        elif name in kw:
+            why = 'reserved word %r generated' % name
+        elif len(name) < last:
+            why = 'name %r is shorter than an earlier one' % name
+        elif not name or any(c not in obfmod.ID_CHARS for c in name):
+            why = 'name %r is not over ID_CHARS' % name
+        if why:
+            break
+        seen.add(name)
+        last = len(name)
+    sub = g(skip=['a', 'b'])
+    first = next(iter(sub))
+    if why is None and (first in ('a', 'b') or first in kw):
+        why = 'a derived generator yields %r, which it was told to skip' % first
+    if why:
+        run.failed('rt.name_generator', 'E4/bounded', why, dict(problem=why), observed=why, required='distinct, non-reserved identifiers', replayed=True)
+    run.bounded_check('rt.name_generator', 'the first %d generated names (all 1-3 letter names)' % n, n)
+
+
 def main(run, tier):
     es5 = importlib.import_module('calmjs.parse.parsers.es5')
     unparsers = importlib.import_module('calmjs.parse.unparsers.es5')
@@ -131,6 +162,11 @@ def main(run, tier):
                        'on the name alphabet are decided exhaustively')
     for f in ('calmjs.parse.handlers.obfuscation', 'calmjs.parse.unparsers.es5', 'calmjs.parse.rules', 'calmjs.parse.ruletypes'):
         run.function(f, scratch.sha256_file(scratch.module_path(f))[:16])
+    # ---- E1: the renaming functions (contracts/obfuscation.py)
+    from ..e1run import verify_functions
+    import contracts.obfuscation as cob
+    verify_functions(run, cob.build(obfmod), {}, {}, tier=tier)
+    name_generator_obligation(run, obfmod, lexmod, tier)
     # ---- exhaustive small obligations
     from .. import charclass as cc
     sets = cc.es5_sets()
@@ -253,8 +289,11 @@ def main(run, tier):
     run.bounded_check('rt.obfuscate', '%d scoping programs (incl. scopes with 60-300 names; 3000 in thorough) x 12 printer configurations; '
                       'reused printer objects' % len(progs), n)
     run.trust('spec/scopes.py (independent ES5 scope resolution) as the oracle', 'C02 for the non-identifier tokens')
-    run.assume('Scope / CatchScope / Obfuscator / NameGenerator have no deductive contract (set algebra over a scope tree, infinite '
-               'generators): bounded only', 'programs using `with` or direct eval are out of scope')
+    run.assume('under contract (E1): Obfuscator.resolve / finalize, Scope.resolve, Scope / CatchScope.build_remap_symbols (which symbols get '
+               'which generated name); NOT under contract: the reserved set computed by Scope._reserved_symbols (set algebra over the '
+               'scope tree) and hence capture freedom as a whole, Scope.declare/reference/close, the event order of Obfuscator.walk -- '
+               'bounded only, against spec/scopes.py', 'NameGenerator: distinctness / skip of the first names only (bounded prefix)',
+               'programs using `with` or direct eval are out of scope')
 
 
 def replay(data):
